@@ -582,7 +582,7 @@ FN('header_defined', props=['C06', 'C08', 'C12'], ret='r',
 FN('read', props=['C07', 'C08', 'C12', 'C01'], ret='r',
    requires=[('aux.BodyReader.read.wf', 'reader_wf(*old(self))')],
    ensures=[
-       ('aux.BodyReader.read.frame', 'final(dst).len() == old(dst).len() && (r is Ok ==> reader_wf(*final(self)))'),
+       ('aux.BodyReader.read.frame', 'final(dst).len() == old(dst).len() && reader_wf(*final(self))'),
        ('C12.counts', 'r is Ok ==> r->Ok_0.0 <= src.len() && r->Ok_0.1 <= old(dst).len()'),
        ('C12.copy_in_order', 'r is Ok ==> is_subseq(final(dst)@.subrange(0, r->Ok_0.1 as int), src@.subrange(0, r->Ok_0.0 as int))'),
        ('C08.length_delimited', '*old(self) is LengthDelimited ==> Self::post_read_limit(*old(self), *final(self), src@, old(dst)@, final(dst)@, r)'),
@@ -646,12 +646,13 @@ FN('read_unlimit', props=['C08', 'C12', 'C01'], ret='r',
 FN('read_chunked', props=['C07', 'C12', 'C01'], ret='r',
    requires=[('aux.read_chunked.mode', '*old(self) is Chunked && dechunker_wf(old(self)->Chunked_0)')],
    ensures=[
-       ('aux.read_chunked.frame', 'final(dst).len() == old(dst).len() && (r is Ok ==> reader_wf(*final(self)))'),
+       ('aux.read_chunked.frame', 'final(dst).len() == old(dst).len() && reader_wf(*final(self))'),
        ('C12.counts', 'r is Ok ==> r->Ok_0.0 <= src.len() && r->Ok_0.1 <= old(dst).len()'),
        ('C12.copy_in_order', 'r is Ok ==> is_subseq(final(dst)@.subrange(0, r->Ok_0.1 as int), src@.subrange(0, r->Ok_0.0 as int))'),
        ('C07.boundary_stop_and_end', 'Self::post_read_chunked(*old(self), *final(self), src@, final(dst)@, stop_on_chunk_boundary, r)'),
    ],
-   head='proof { axiom_slice_len(src); axiom_slice_len(dst); }',
+   head='proof { axiom_slice_len(src); axiom_slice_len(dst); } let ghost fself = *final(self);',
+   attrs=['verifier::loop_isolation(false)', 'verifier::allow_complex_invariants'],
    loops={1: {'kw': 'loop',
               'before': '''
         let ghost s0 = *dechunker;
@@ -663,7 +664,7 @@ FN('read_chunked', props=['C07', 'C12', 'C01'], ret='r',
 ''',
               'invariant': [
                   ('aux.read_chunked.loop.bounds', 'input_used <= src.len() && output_used <= dst.len() && dst.len() == old(dst).len() && src.len() <= usize::MAX && dst.len() <= usize::MAX'),
-                  ('aux.read_chunked.loop.state', 'dechunker_wf(*dechunker)'),
+                  ('aux.read_chunked.loop.state', 'dechunker_wf(*dechunker) && fself == BodyReader::Chunked(*final(dechunker))'),
                   ('aux.read_chunked.loop.subseq', 'is_subseq(dst@.subrange(0, output_used as int), src@.subrange(0, input_used as int))'),
                   ('aux.read_chunked.loop.ended', 's0 is Ended ==> *dechunker is Ended && input_used == 0 && output_used == 0'),
                   ('aux.read_chunked.loop.segment', 'stop_on_chunk_boundary ==> one_segment(src@, dst@, input_used as int, output_used as int, s0, *dechunker)'),
